@@ -30,6 +30,8 @@ MODULE_KINDS = [
     "operator interface",
     "generic interface of bodies",
     "type with constructor",
+    "enumerator",
+    "namelist group",
 ]
 ATTR_KINDS = ("variable", "parameter", "type", "type with constructor")  # kinds whose declaration can carry an access attribute
 
@@ -76,6 +78,10 @@ def entity_lines(kind, n, attr, case=0):
         # a derived type and the generic interface overloading its constructor: one identifier, one accessibility
         return ([f"type{a} :: {name}", f"  integer :: c{n}", "end type", f"interface {name}", f"  module procedure mk{n}", "end interface"],
                 [f"function mk{n}(c) result(r)", "  integer, intent(in) :: c", f"  type({name}) :: r", f"  r%c{n} = c", f"end function mk{n}"])
+    if kind == "enumerator":
+        return ["enum, bind(c)", f"  enumerator :: {name} = {n}, en_other{n}", "end enum"], []
+    if kind == "namelist group":
+        return [f"integer :: nlv{n}", f"namelist /{name}/ nlv{n}"], []
     if kind == "subroutine":
         return [], [f"subroutine {name}()", f"end subroutine {name}"]
     if kind == "function":
@@ -146,6 +152,8 @@ def find_entity(mod, kind, n):
         "parameter": "variables",
         "type": "types",
         "type with constructor": "types",
+        "enumerator": "enums",
+        "namelist group": "namelists",
         "subroutine": "subroutines",
         "function": "functions",
         "generic interface": "interfaces",
@@ -153,6 +161,8 @@ def find_entity(mod, kind, n):
         "operator interface": "interfaces",
         "abstract interface": "absinterfaces",
     }[kind]
+    if kind == "enumerator":
+        return [v for en in mod.enums for v in en.variables if (v.name or "").lower() == name]
     found = [e for e in getattr(mod, coll) if (e.name or "").lower() == name]
     return found
 
